@@ -463,6 +463,31 @@ async fn pub5r(ctx: Rc<Ctx>, conn: i64, res: i64, mut p: v5::Publish) -> Result<
     }
 }
 
+/// publish service whose `shutdown()` completes only on command (cfg `slow_shutdown`): an application service
+/// may take its time to shut down; whatever a late handler produces meanwhile must not reach the wire once the
+/// endpoint has written its DISCONNECT
+struct SlowPub5 {
+    ctx: Rc<Ctx>,
+}
+
+impl ntex_service::Service<v5::Publish> for SlowPub5 {
+    type Response = v5::PublishAck;
+    type Error = TestErr;
+
+    async fn call(&self, p: v5::Publish, _: ntex_service::ServiceCtx<'_, Self>) -> Result<v5::PublishAck, TestErr> {
+        pub5(self.ctx.clone(), p).await
+    }
+
+    async fn shutdown(&self) {
+        let h = self.ctx.new_h();
+        self.ctx.emit(Ev::new("h_start").k("shutdown").s(h));
+        let (tx, rx) = oneshot::channel();
+        self.ctx.gates.borrow_mut().insert(h, tx);
+        let _ = rx.await;
+        self.ctx.emit(Ev::new("h_end").k("ok").s(h));
+    }
+}
+
 async fn proto5(
     ctx: Rc<Ctx>,
     msg: v5::ProtocolMessage,
@@ -1366,6 +1391,27 @@ pub async fn run_conn(ctx: Rc<Ctx>, cmds: Vec<Value>) {
             } else {
                 start!(mkres(-1))
             }
+        }
+        ("server", 5) if ctx.cfg_i("slow_shutdown", 0) != 0 => {
+            let (c1, c2, c3, c4) = (ctx.clone(), ctx.clone(), ctx.clone(), ctx.clone());
+            let server = v5::MqttServer::new(move |h: v5::Handshake| hs5(c1.clone(), h))
+                .protocol(move |m: v5::ProtocolMessage| proto5(c2.clone(), m))
+                .control(move |m: Control<TestErr>| ctl5(c3.clone(), m))
+                .publish(ntex_service::fn_factory_with_config(move |_: v5::Session<()>| {
+                    let c = c4.clone();
+                    async move { Ok::<_, TestErr>(SlowPub5 { ctx: c }) }
+                }));
+            let svc = ServiceFactory::<IoBoxed, SharedCfg>::create(&server, cfg.clone()).await;
+            let svc = Pipeline::new(svc.expect("server create"));
+            let io = IoBoxed::from(Io::new(ep_io, cfg.clone()));
+            ntex_rt::spawn(async move {
+                let r = svc.call(io).await;
+                c.conn_done.set(true);
+                c.emit(Ev::new("conn_done").k(match &r {
+                    Ok(()) => "ok".to_string(),
+                    Err(e) => format!("err:{}", short(&format!("{e:?}"))),
+                }));
+            });
         }
         ("server", 5) => {
             let (c1, c2, c3, c4) = (ctx.clone(), ctx.clone(), ctx.clone(), ctx.clone());
